@@ -185,7 +185,13 @@ def gen_case(rng, pid, tier):
             ops.append(['vinit'] if rng.random() < 0.4 else ['vlist'])
         elif r < 0.52:
             who = o if (o in live or rng.random() < 0.15) else rng.choice(sorted(live) or [o])
-            ops.append(['rcreate', rng.choice(rules), who])
+            if len([x for x in live if '#' not in x]) >= 2 and rng.random() < 0.2:
+                # two live owners ask for the same rule at the same time: the second call runs in the middle of
+                # the first one (before its n-th filesystem call on the rule directory)
+                a_, b_ = rng.sample(sorted(x for x in live if '#' not in x), 2)
+                ops.append(['rrace', rng.choice(rules), a_, b_, rng.randrange(4)])
+            else:
+                ops.append(['rcreate', rng.choice(rules), who])
         elif r < 0.60:
             ops.append(['runlink', rng.choice(rules), o])
         elif r < 0.64:
@@ -686,6 +692,67 @@ def _run(case, root):
                         stats['repeat'] += 1
                     rules.create_rule(op[1][0], rule_obj(op[1]), who)
                     beliefs.setdefault(who, set()).add(('rule', rule_fname(op[1])))
+                elif kind == 'rrace':
+                    rule_, a_, b_, nth = op[1], op[2], op[3], op[4]
+                    who = a_
+                    site = 'RuleMgr.create_rule+concurrent-create'
+                    aline = 'rcreate %d %d' % (rid(rule_), intern(a_))
+                    bline = 'rcreate %d %d' % (rid(rule_), intern(b_))
+                    rst = {'n': 0, 'at': None, 'busy': False, 'ares': None, 'bres': None}
+
+                    def second():
+                        try:
+                            rules.create_rule(rule_[0], rule_obj(rule_), b_)
+                            rst['bres'] = 'ok'
+                        except OSError as e2:
+                            rst['bres'] = _exc_kind(e2)
+
+                    rnames = ('symlink', 'readlink', 'rename', 'replace', 'lstat', 'stat', 'unlink')
+                    rorigs = {n_: getattr(os, n_) for n_ in rnames}
+
+                    def rwrap(n_):
+                        def w_(*a, **kw):
+                            path_ = a[1] if n_ == 'symlink' and len(a) > 1 else (a[0] if a else None)
+                            if (not rst['busy'] and rst['at'] is None and isinstance(path_, str) and
+                                    path_.startswith(dirs['rule'] + os.sep)):
+                                if rst['n'] == nth:
+                                    rst['at'] = nth
+                                    rst['busy'] = True
+                                    try:
+                                        second()
+                                    finally:
+                                        rst['busy'] = False
+                                rst['n'] += 1
+                            return rorigs[n_](*a, **kw)
+                        return w_
+                    rpatches = [mock.patch('os.' + n_, rwrap(n_)) for n_ in rnames]
+                    for p_ in rpatches:
+                        p_.start()
+                    try:
+                        try:
+                            rules.create_rule(rule_[0], rule_obj(rule_), a_)
+                            rst['ares'] = 'ok'
+                        except OSError as e2:
+                            rst['ares'] = _exc_kind(e2)
+                    finally:
+                        for p_ in rpatches:
+                            p_.stop()
+                    if rst['at'] is None:
+                        second()                         # the first call made fewer filesystem calls: B simply comes after it
+                    if rst['at'] == 0:
+                        # B ran before A touched anything: equivalent to  B; A
+                        run.op('quiet ' + bline, 'q')
+                        line, res = aline, rst['ares']
+                        run.tags.add('rrace-before')
+                    else:
+                        # B ran after A's (atomic) creation attempt: equivalent to  A; B
+                        run.op('quiet ' + aline, 'q')
+                        line, res = bline, rst['bres']
+                        run.tags.add('rrace-after' if rst['at'] is not None else 'rrace-seq')
+                    if rst['ares'] == 'ok':
+                        beliefs.setdefault(a_, set()).add(('rule', rule_fname(rule_)))
+                    if rst['bres'] == 'ok':
+                        beliefs.setdefault(b_, set()).add(('rule', rule_fname(rule_)))
                 elif kind == 'runlink':
                     who = op[2]
                     line = 'runlink %d %d' % (rid(op[1]), intern(who))
